@@ -12,11 +12,15 @@ Objects with member=true are members of lib.a (archive order = object order), wh
 command line where its first member would stand; a member is extracted because main.o (pulledby=0)
 or another member (pulledby=k) references its anchor symbol.
 """
+import hashlib
+import os
 import struct
+import subprocess
+import threading
 from pathlib import Path
 
 from . import asm
-from .common import ToolError, run_wild, sh
+from .common import ToolError, run_wild
 from .elf import Elf
 
 BASE = {"preinit": ".preinit_array", "init": ".init_array", "fini": ".fini_array",
@@ -99,16 +103,13 @@ buf: .skip 512
 """
 
 
-def emit(scn, d, align=3):
-    """Write + assemble main.o and o<k>.o, build lib.a if there are members.
-    Returns the link inputs in command-line order (list of paths)."""
-    d = Path(d)
+def sources(scn, align=3):
+    """{"main": asm text, "o1": asm text, ...} for a scenario."""
     ids = func_ids(scn)
     objs = scn["objs"]
     main_refs = [k for k, ob in enumerate(objs, 1) if ob.get("member") and int(ob.get("pulledby", 0)) == 0]
     anchors = "\n".join(f"    lea anchor{k}(%rip), %rax" for k in main_refs)
-    main_o = asm.write_asm(d, "main", MAIN_S.replace("__ANCHORS__", anchors))
-    paths = {}
+    out = {"main": MAIN_S.replace("__ANCHORS__", anchors)}
     for o, ob in enumerate(objs, 1):
         t = [f'    .section .text.o{o},"ax",@progbits', f"    .globl anchor{o}", f"anchor{o}:"]
         for k, other in enumerate(objs, 1):
@@ -121,7 +122,32 @@ def emit(scn, d, align=3):
         for e, ent in enumerate(ob["entries"], 1):
             t += [f'    .section {section_name(ent["a"], ent["p"])},"aw",{SECTYPE[ent["a"]]}',
                   f"    .p2align {align}", f"    .quad {fname(o, e)}"]
-        paths[o] = asm.write_asm(d, f"o{o}", "\n".join(t) + "\n")
+        out[f"o{o}"] = "\n".join(t) + "\n"
+    return out
+
+
+def _assemble_cached(name, text, d, cache):
+    if cache is None:
+        return asm.write_asm(d, name, text)
+    key = hashlib.sha1(text.encode()).hexdigest()[:20]
+    obj = Path(cache) / f"{name}-{key}.o"
+    if not obj.exists():
+        tmp = str(Path(cache) / f".{name}-{key}.{os.getpid()}.{threading.get_ident()}")
+        Path(tmp + ".s").write_text(text)
+        asm.assemble(tmp + ".s", tmp + ".o")
+        os.replace(tmp + ".s", obj.with_suffix(".s"))
+        os.replace(tmp + ".o", obj)
+    return obj
+
+
+def emit(scn, d, align=3, cache=None):
+    """Assemble main.o and o<k>.o (through the content-addressed `cache` directory if given), build
+    lib.a in d if there are members.  Returns the link inputs in command-line order."""
+    d = Path(d)
+    srcs = sources(scn, align)
+    objs = scn["objs"]
+    main_o = _assemble_cached("main", srcs["main"], d, cache)
+    paths = {o: _assemble_cached(f"o{o}", srcs[f"o{o}"], d, cache) for o in range(1, len(objs) + 1)}
     members = [o for o, ob in enumerate(objs, 1) if ob.get("member")]
     inputs = [main_o]
     lib = None
@@ -165,18 +191,8 @@ def read_arrays(path):
     return out, bounds, leftovers
 
 
-def execute(path, scn, timeout=10):
-    """Run the linked program; returns {array: [function names in EXECUTION order]} or raises."""
-    ids = {v: k for k, v in func_ids(scn).items()}
-    r = sh([str(path)], timeout=timeout)
-    if r.timed_out or r.rc != 0:
-        return None, f"rc={r.rc} timeout={r.timed_out}"
-    raw = r.out.encode("latin-1", "replace") if False else None
-    return r, None
-
-
 def execute_bytes(path, scn, timeout=10):
-    import subprocess
+    """Run the linked program; ({array: [function names in EXECUTION order]}, None) or (None, why)."""
     ids = {v: k for k, v in func_ids(scn).items()}
     try:
         p = subprocess.run([str(path)], stdout=subprocess.PIPE, stderr=subprocess.PIPE, timeout=timeout,
